@@ -58,6 +58,13 @@ LEVEL_TEXT = ("Coq proofs about the executable model pag_to_mag_model (three pha
               "skeleton class P); meek4_holds_on_cluster_graphs proves it for all sizes when the component is a disjoint union of "
               "cliques, giving p2m_shape_all_sizes_cluster with pag_hyps as the only other hypothesis; "
               "p2m_shape_all_sizes_from_meek4 gives the chordal case from the single hypothesis meek4_on chordal_skel. "
+              "Elimination orderings (C09/Meek4Elim.v): a perfect elimination ordering compatible with the directed layer IS a "
+              "v-structure-free extension and is built greedily while eligible nodes exist (meek4_from_eligible); "
+              "meek4_holds_on_forests proves Meek's Thm 4 for all sizes on triangle-free (forest) skeletons, hence "
+              "p2m_shape_all_sizes_forest_partial: the shape clauses with no hypothesis on the rounds for forest-shaped circle "
+              "components (paths, stars, trees), next to the clique-union case; meek4_holds_on_cliques_and_trees / "
+              "p2m_shape_all_sizes_cliques_and_trees_partial cover every circle component each of whose connected components is a "
+              "clique or a tree (ct_skel, C09/Meek4CT.v). "
               "BOUNDED discharge of rounds_extendable (Meek's lemma on chordal graphs) — meek_chordal_orientation_bounded_5 / "
               "chordal_iff_vfree_extension_bounded_5: all 1024 undirected graphs on <=5 nodes; pag_hyps_hold_on_pags_of_mags_bounded_3. "
               "REFUTED for the assembly as coded before the repair — p2m_structure_code_refuted. "
@@ -67,9 +74,11 @@ LEVEL_TEXT = ("Coq proofs about the executable model pag_to_mag_model (three pha
 LEVEL_NOTE = ("MISSING for an unconditional all-sizes shape theorem: (i) the single statement meek4_on chordal_skel (Meek 1995 Thm 4 on "
               "chordal skeletons: a PDAG closed under R1-R4 with a v-structure-free extension keeps one after hand-orienting any "
               "undirected edge u - v as u -> v). Proved: first round (all sizes), cluster skeletons (all sizes), all graphs on <=5 "
-              "nodes (kernel). A paper reduction (not formalised): by induction on the number of nodes, removing a sink s <> u of "
-              "some extension, it suffices to show that u cannot be the UNIQUE sink of EVERY v-structure-free extension of a closed "
-              "PDAG that has an undirected edge at u; "
+              "nodes (kernel). Also proved for forest skeletons (all sizes). The reduction is now formal "
+              "(meek4_from_eligible): what is missing is eligible_nodes_exist chordal_skel — in a closed v-free-extendable PDAG, for "
+              "every node set R containing an undirected edge a - b, some node other than a is simplicial in R and has no directed "
+              "edge into R; on general chordal skeletons the end of a directed chain need not be simplicial (its undirected "
+              "neighbours need not be pairwise adjacent), which is where the forest / clique arguments stop; "
               "(ii) pag_hyps for the PAG of every MAG (Zhang 2008 Lemma 3.3.1; kernel-checked n<=3, harness-checked n<=4 and on the "
               "chordal 5-6 node stream through the booleans pag_hypsb / rounds_ok_b in run_case mode 1); bounded theorems are stated with the boolean oracles (msep_dec; its reflection to the Prop msep is Graph/MSepDec.v, "
               "not imported here); which undirected edge the temporary CPDAG yields first is not modelled (any order is covered by "
